@@ -156,6 +156,18 @@ macro "fr_simp" : tactic =>
   `(tactic| simp only [fr_read, fr_push, ↓reduceIte, Bool.false_eq_true, Bool.true_eq_false, ne_eq,
       not_false_eq_true, not_true_eq_false, implies_true, *])
 
+theorem ite_sc {cn : Conn} {p : Prop} [Decidable p] {A B A' B' : Ctx} (hA : A' = A.sc cn)
+    (hB : B' = B.sc cn) : (if p then A' else B') = (if p then A else B).sc cn := by
+  subst hA hB; split <;> rfl
+
+theorem ite_scW {cn : Conn} {p : Prop} [Decidable p] {A B A' B' : World} (hA : A' = A.scW cn)
+    (hB : B' = B.scW cn) : (if p then A' else B') = (if p then A else B).scW cn := by
+  subst hA hB; split <;> rfl
+
+/-- hook: further structural steps registered with `macro_rules` -/
+syntax "fr_hook" : tactic
+macro_rules | `(tactic| fr_hook) => `(tactic| fail "no frame step applies")
+
 /-- normalise the reads, push the foreign record outwards, split the handler's case analysis
     (on both sides at once), recurse into folds and world updates -/
 macro "fr" : tactic =>
@@ -166,6 +178,9 @@ macro "fr" : tactic =>
     | (rw [sc_foldl])
     | (rw [scW_foldl])
     | (rw [sc_modifyW])
+    | with_reducible apply ite_sc
+    | with_reducible apply ite_scW
+    | fr_hook
     | split))
 
 /-! ### the tactic for (B) -/
